@@ -69,7 +69,7 @@ def fOf (s : String) : F32 := ofBits s.toNat!
 def fop (op : String) (a b : F32) : String :=
   match op with
   | "add" => fb (add a b) | "sub" => fb (sub a b) | "mul" => fb (mul a b) | "div" => fb (div a b)
-  | "rem" => fb (fmod a b) | "max" => fb (F32.max a b) | "min" => fb (F32.min a b)
+  | "rem" => fb (fmod a b) | "max" => fb (F32.fmax a b) | "min" => fb (F32.fmin a b)
   | "lt" => toString (b2n (lt a b)) | "le" => toString (b2n (le a b)) | "eq" => toString (b2n (feq a b))
   | "neg" => fb (neg a) | "u32" => toString (toU32 a) | "i16" => toString (toI16 a)
   | "fromu32" => fb (ofNat (toBits a))     -- operand is the integer itself
